@@ -5,7 +5,7 @@ V = os.path.dirname(os.path.abspath(__file__))
 sys.path.insert(0, V)
 import harnesses, claims
 checks = []
-claimed = sorted({p for h in harnesses.H.values() for p in h['props']})
+claimed = sorted(p for p in claims.CLAIMED if any(p in h['props'] for h in harnesses.H.values()))
 for p in claimed:
     c = claims.CLAIMS[p]
     checks.append({
